@@ -192,7 +192,7 @@ fn make_case(script: (&'static str, Vec<Op>), subs: &[Vec<L>], stopper: bool, fa
         desc,
         exec: ExecCfg::default(),
         bound: None,
-        scene: Box::new(ProgScene { spawn: SpawnCfg::plain(mailbox), roles: vec![role], clients, extra: X { owner_script: script.0 }, oracle }),
+        scene: Box::new(ProgScene { attach: crate::progscene::Attach::None, spawn: SpawnCfg::plain(mailbox), roles: vec![role], clients, extra: X { owner_script: script.0 }, oracle }),
     }
 }
 
